@@ -29,9 +29,13 @@ class Obligation:
 
 
 class Ctx:
-    def __init__(self, prop, tier):
+    def __init__(self, prop, tier, remap=None, key_prefix=""):
         self.prop = prop
         self.tier = tier
+        # thorough tier: a second pass evaluates every rule on another build shape (`remap`), its obligations
+        # carrying `key_prefix`
+        self.remap = remap or {}
+        self.key_prefix = key_prefix
         self.obligations = []
         self._progs = {}
         self.not_decided = []
@@ -43,6 +47,7 @@ class Ctx:
 
     # ---------------------------------------------------------------- programs
     def program(self, shape="main"):
+        shape = self.remap.get(shape, shape)
         if shape not in self._progs:
             d = extract.facts_for(shape)
             self._progs[shape] = Program([d])
@@ -63,7 +68,7 @@ class Ctx:
     # ---------------------------------------------------------------- obligations
     def ob(self, clause, key, kind, desc):
         clause = getattr(self, "alias", {}).get(clause, clause)
-        o = Obligation(clause, "%s/%s" % (clause, key), kind, desc)
+        o = Obligation(clause, "%s/%s%s" % (clause, self.key_prefix, key), kind, desc)
         self.obligations.append(o)
         return o
 
